@@ -969,6 +969,17 @@ fn through_headers(status: &Status, pfx: &str) -> Result<Status, Failure> {
     Ok(back)
 }
 
+/// The status metadata of some cases also holds an entry named like the details header (e.g. the trailers of an
+/// upstream call re-raised as metadata): the status' own details must be what travels.
+fn md_map(es: &[MdEntry], message: &str, o: &mut Outcome) -> tonic::metadata::MetadataMap {
+    let mut m = md::build_map(es);
+    if message.len() % 3 == 0 {
+        m.insert_bin("grpc-status-details-bin", tonic::metadata::MetadataValue::from_bytes(b"\x08\x0e\x12\x08upstream"));
+        o.label("metadata_named_like_details_header");
+    }
+    m
+}
+
 fn check_md(st: &Status, mdv: &Option<Vec<MdEntry>>, pfx: &str) -> Result<(), Failure> {
     if let Some(es) = mdv {
         if let Err(e) = md::check_present(&st.metadata().clone().into_headers(), es, None) {
@@ -1005,7 +1016,7 @@ fn run_set(code: i32, message: &str, mdv: &Option<Vec<MdEntry>>, dets: &[Det], m
         ensure!(local[k].as_ref() == w, format!("C20/set/builder/{}", KINDS[k]), "ErrorDetails built by mode {} holds {}, expected {}", mode % 3, short(&local[k]), short(&w));
     }
     let status = match mdv {
-        Some(es) => Status::with_error_details_and_metadata(code_of(code), message.to_string(), ed, md::build_map(es)),
+        Some(es) => Status::with_error_details_and_metadata(code_of(code), message.to_string(), ed, md_map(es, message, o)),
         None => Status::with_error_details(code_of(code), message.to_string(), ed),
     };
     ensure!(status.code() == code_of(code) && status.message() == message, "C20/set/outer-status", "status {:?} {:?} for code {} message {:?}", status.code(), status.message(), code, message);
@@ -1023,7 +1034,7 @@ fn run_list(code: i32, message: &str, mdv: &Option<Vec<MdEntry>>, items: &[Det],
     o.label_if(mdv.is_some(), "with_metadata");
     let v: Vec<ErrorDetail> = items.iter().map(to_tonic).collect();
     let status = match mdv {
-        Some(es) => Status::with_error_details_vec_and_metadata(code_of(code), message.to_string(), v, md::build_map(es)),
+        Some(es) => Status::with_error_details_vec_and_metadata(code_of(code), message.to_string(), v, md_map(es, message, o)),
         None => Status::with_error_details_vec(code_of(code), message.to_string(), v),
     };
     ensure!(status.code() == code_of(code) && status.message() == message, "C20/list/outer-status", "status {:?} {:?} for code {} message {:?}", status.code(), status.message(), code, message);
